@@ -25,6 +25,8 @@ import r33_axispair
 import r34_weights
 import r35_residual
 import r36_zerodensity
+import r37_polarcap
+import r38_twinfield
 import r06_validate
 import r07_cache
 import r08_toporder
@@ -152,6 +154,22 @@ R31_SCOPES = {
 
 def r31(ctx, prop):
     return r31_reject.run(ctx.F(), R31_SCOPES[prop])
+
+
+def r38(ctx, prop):
+    return r38_twinfield.run(ctx.F())
+
+
+def r37(ctx, prop):
+    return r37_polarcap.run(ctx.F())
+
+
+def r1_guard_idealgas(ctx, prop):
+    rs = _r1(ctx, prop, ("R1b", "R1d"), _sel_idealgas)
+    for r in rs:
+        r.floors = []
+        r.findings = [f for f in r.findings if "floor|" not in f.key]
+    return rs
 
 
 def r36(ctx, prop):
@@ -358,11 +376,11 @@ def r12(ctx, prop):
 
 
 PROPERTY_RULES = {
-    "C08": [r10_wrapper, r11, r2, r20, r21, r25, r27],
-    "C09": [r12, r18, r20, r10_wrapper, r30],
+    "C08": [r10_wrapper, r11, r2, r20, r21, r25, r27, r37, r38],
+    "C09": [r12, r18, r20, r10_wrapper, r30, r38],
     "C02": [r3, r7],
-    "C10": [r10_selector, r8, r1_idealgas, r3, r19, r25, r29, r10_selconst],
-    "C14": [r14, r13, r10_identifier, r21, r27, r28],
+    "C10": [r10_selector, r8, r1_idealgas, r3, r19, r25, r29, r10_selconst, r1_guard_idealgas],
+    "C14": [r14, r13, r10_identifier, r21, r27, r28, r38],
     "C15": [r15],
     "C20": [r10_transport, r21, r25, r24, r34, r10_selconst],
     "C01": [r1_all, r2, r7, r8, r4, r25, r24, r26, r28, r29],
